@@ -255,6 +255,9 @@ class AQTSampler(cirq.Sampler):
         seq_list: list[tuple[str, float, list[int]] | tuple[str, float, float, list[int]]] = []
         circuit = cirq.resolve_parameters(circuit, param_resolver)
         for op in circuit.all_operations():
+            if not all(isinstance(q, cirq.LineQubit) and q.x >= 0 for q in op.qubits):
+                # The payload identifies a qubit by its line index only.
+                raise ValueError(f'AQT operations must act on cirq.LineQubit(x) with x >= 0: {op!r}')
             line_qubit = cast(tuple[cirq.LineQubit], op.qubits)
             op = cast(cirq.GateOperation, op)
             qubit_idx = [obj.x for obj in line_qubit]
